@@ -527,7 +527,7 @@ func ncells(part []int) int {
 func init() { register("C11", "model_checking", runC11) }
 
 func runC11(ctx *core.Ctx) {
-	ctx.Rule("programs quantifier enumerated completely: every exported method of Point, Scalar and field.Element (table cross-checked by reflection) x every set partition of its same-typed pointer operand positions (receiver included; for multi-scalar routines n in {1..5} with every partition of receiver+point slots and of the scalar slots; value tuples complete for n <= 3, four rotated assignments for n = 4, 5) x every tuple of a small value alphabet per storage cell. Oracle: the same call on distinct storage (differential); non-receiver operands, slices (header, elements, spare capacity) and pointees compared bit for bit. states = (method, partition) programs, transitions = executed call pairs. distinct_nontrivial = distinct (method, result) values")
+	ctx.Rule("programs quantifier enumerated completely: every exported method of Point, Scalar and field.Element (table cross-checked by reflection) x every set partition of its same-typed pointer operand positions (receiver included; for multi-scalar routines n in {1..5} (thorough: ..6) with every partition of receiver+point slots and of the scalar slots; value tuples complete for n <= 3, four rotated assignments for n = 4, 5) x every tuple of a small value alphabet per storage cell. Oracle: the same call on distinct storage (differential); non-receiver operands, slices (header, elements, spare capacity) and pointees compared bit for bit. states = (method, partition) programs, transitions = executed call pairs. distinct_nontrivial = distinct (method, result) values")
 	ctx.Assume("value alphabets: 6 elements (two limb forms), 6 scalars, 4 points (identity, B, order-8, mixed in a scaled representation)")
 	noteUncovered(ctx)
 	programs := 0
@@ -608,7 +608,7 @@ func runC11(ctx *core.Ctx) {
 	// scalar slots (15, 52) - two groups of repeated pointers, a repeated
 	// pointer after a repeated pointer, the receiver inside a group... - with
 	// rotated value assignments instead of all tuples
-	maxN := tierN(ctx, 4, 5)
+	maxN := sz(ctx, 4, 5, 6)
 	for n := 4; n <= maxN; n++ {
 		for _, op := range []string{"MultiScalarMult", "VarTimeMultiScalarMult"} {
 			spec := pointOpSpec(op, n)
